@@ -548,6 +548,30 @@ def step (s : St) (op impl : String) : St × StepOut :=
             if want ≠ got ∨ !(kv iw "ext=").startsWith wantExt then
               fails := fails ++ [("hdr_roundtrip", "-", s!"encoded `{want} pn={wantExt}` parsed as `{got} ext={kv iw "ext="}`")]
         | none => pure ()
+        -- the fields are where RFC 9000 §17.2 / RFC 9369 §3.2 put them
+        if kvn iw "v=" = 1 ∨ kvn iw "v=" = 0x6b3343cf then
+          match specLongHeader b with
+          | some sp =>
+            let want := s!"t={sp.ptype} v={sp.version} d={hx sp.dcid} s={hx sp.scid} len={sp.length} tok={hx sp.token} pl={sp.hdrLen}"
+            let got := s!"t={kvn iw "t="} v={kvn iw "v="} d={kv iw "d="} s={kv iw "s="} len={kvn iw "len="} tok={kv iw "tok="} pl={kvn iw "pl="}"
+            if want ≠ got then fails := fails ++ [("hdr_spec", "-", s!"RFC layout gives `{want}`, implementation `{got}`")]
+            else if sp.ptype ≠ 2 then
+              -- packet number (after header protection removal): length from the low two bits, reserved bits 0x0c must be 0
+              let ext := kv iw "ext="
+              if b.length ≥ sp.hdrLen + sp.pnLen then
+                let pn := beSpec ((b.drop sp.hdrLen).take sp.pnLen)
+                let resOK := (b.getD 0 0).toNat / 4 % 4 = 0
+                let wantExt := s!"{pn}/{sp.pnLen}/{sp.hdrLen + sp.pnLen}/{if resOK then "ok" else "bad"}"
+                if ext ≠ wantExt then fails := fails ++ [("hdr_spec", "-", s!"packet number / reserved bits: RFC gives {wantExt}, implementation {ext}")]
+              else if !ext.startsWith "E:" then fails := fails ++ [("hdr_spec", "-", s!"packet number read beyond the input: {ext}")]
+          | none => fails := fails ++ [("hdr_spec", "-", s!"accepted a long header that is truncated or malformed per RFC 9000 §17.2: {impl}")]
+      else if impl.startsWith "E:" then
+        -- a complete, well-formed v1/v2 long header whose packet fits the datagram must parse
+        match specLongHeader b with
+        | some sp =>
+          if b.length ≥ sp.hdrLen + sp.length then
+            fails := fails ++ [("hdr_spec", "-", s!"well-formed long header (type {sp.ptype}, header {sp.hdrLen} bytes, length {sp.length}) rejected: {impl}")]
+        | none => pure ()
       return fails
     (s, { model := model, tags := [s!"lhdr:{(words model).headD ""}{if model.startsWith "ok" then ":t" ++ kv (words model) "t=" else ""}"], fails := fails })
   | ["shdr", cl, h] =>
@@ -562,12 +586,21 @@ def step (s : St) (op impl : String) : St × StepOut :=
       if impl.startsWith "ok " then
         if kvn iw "n=" > b.length ∨ kvn iw "n=" ≠ 1 + n + kvn iw "pnl=" then
           fails := fails ++ [("hdr_consumed", "-", s!"short header n={kvn iw "n="} of {b.length} bytes")]
-        match s.shdrEncs.find? (fun e => e.1 = h) with
-        | some (_, ew) =>
-          let pnl := kvn ew "pnl="
-          let want := s!"ok n={1 + n + pnl} pn={kvn ew "pn=" % 256 ^ pnl} pnl={pnl} kp={kvn ew "kp="} res=ok"
-          if impl ≠ want then fails := fails ++ [("hdr_roundtrip", "-", s!"short header: want `{want}` got `{impl}`")]
-        | none => pure ()
+        -- RFC 9000 §17.3.1: 0|1|S|R|R|K|P|P, connection ID, packet number
+        let first := (b.getD 0 0).toNat
+        let pnl := first % 4 + 1
+        let wantS := s!"ok n={1 + n + pnl} pn={beSpec ((b.drop (1 + n)).take pnl)} pnl={pnl} kp={first / 4 % 2 + 1} res={if first / 8 % 4 = 0 then "ok" else "bad"}"
+        if impl ≠ wantS then fails := fails ++ [("hdr_spec", "-", s!"short header: RFC 9000 §17.3.1 gives `{wantS}`, implementation `{impl}`")]
+      else if impl.startsWith "E:" then
+        let first := (b.getD 0 0).toNat
+        if !b.isEmpty ∧ first / 128 % 2 = 0 ∧ first / 64 % 2 = 1 ∧ b.length ≥ 1 + n + first % 4 + 1 then
+          fails := fails ++ [("hdr_spec", "-", s!"complete short header rejected: {impl}")]
+      match s.shdrEncs.find? (fun e => e.1 = h) with
+      | some (_, ew) =>
+        let pnl := kvn ew "pnl="
+        let want := s!"ok n={1 + n + pnl} pn={kvn ew "pn=" % 256 ^ pnl} pnl={pnl} kp={kvn ew "kp="} res=ok"
+        if impl ≠ want then fails := fails ++ [("hdr_roundtrip", "-", s!"short header: want `{want}` got `{impl}`")]
+      | none => pure ()
       return fails
     (s, { model := model, tags := [s!"shdr:{if model.startsWith "ok" then "ok" else model}"], fails := fails })
   | ["cid", sl, h] =>
@@ -596,6 +629,13 @@ def step (s : St) (op impl : String) : St × StepOut :=
     let fails : List Fail := Id.run do
       let mut fails : List Fail := noPanic []
       if impl.startsWith "ok " then
+        -- RFC 9000 §17.2.1: DCID len, DCID, SCID len, SCID, then a non-empty list of 32-bit versions
+        let dl := (b.getD 5 0).toNat
+        let sl := (b.getD (6 + dl) 0).toNat
+        let vs := b.drop (7 + dl + sl)
+        let wantVN := s!"ok d={hx ((b.drop 6).take dl)} s={hx ((b.drop (7 + dl)).take sl)} v={vlist ((List.range (vs.length / 4)).map fun i => beSpec ((vs.drop (4 * i)).take 4))}"
+        if vs.isEmpty ∨ vs.length % 4 ≠ 0 ∨ b.length < 7 + dl + sl ∨ impl ≠ wantVN then
+          fails := fails ++ [("hdr_spec", "-", s!"version negotiation: RFC 9000 §17.2.1 gives `{wantVN}`, implementation `{impl}`")]
         match s.vnEncs.find? (fun e => e.1 = h) with
         | some (_, ew) =>
           let got := ((kv iw "v=").splitOn ",").filter (· ≠ "-")
@@ -687,6 +727,18 @@ def step (s : St) (op impl : String) : St × StepOut :=
             ++ (if kvn iw "mad=" ≠ kvn ew "mad=" / 1000000 * 1000000 then ["mad="] else [])
           if !bad.isEmpty then
             fails := fails ++ [("tp_roundtrip", "-", s!"fields {bad} changed: sent `{tptext}` got `{impl}`")]
+        | none => pure ()
+      else if impl.startsWith "E:" then
+        -- what Marshal wrote for parameters RFC 9000 §18.2 allows must be accepted
+        match s.tpEncs.find? (fun e => e.1 = h ∧ e.2.1 = pers) with
+        | some (_, _, tptext) =>
+          let ew := words tptext
+          let madMs := kvn ew "mad=" / 1000000
+          let paOK : Bool := kv ew "pa=" = "nil" || pers = "c" || (match (kv ew "pa=").splitOn "," with | [_, _, c, _] => c != "-" | _ => false)
+          let minOK : Bool := kv ew "minad=" = "-" || decide (kvn ew "minad=" / 1000 * 1000 ≤ madMs * 1000000)
+          if (kvn ew "udp=" = 0 ∨ kvn ew "udp=" ≥ 1200) ∧ kvn ew "ade=" ≤ 20 ∧ madMs < 16384 ∧ kvn ew "acl=" ≥ 2
+              ∧ kvn ew "sb=" ≤ 2 ^ 60 ∧ kvn ew "su=" ≤ 2 ^ 60 ∧ paOK = true ∧ minOK = true then
+            fails := fails ++ [("tp_roundtrip", "-", s!"Marshal output for valid parameters `{tptext}` is rejected: {impl}")]
         | none => pure ()
       return fails
     (s, { model := model, tags := [s!"tpdec:{pers}:{if model.startsWith "ok" then "ok" else model}"], fails := fails })
